@@ -211,12 +211,19 @@ package encrypt
 //@   ensures locks-restored: oldlocks("held")
 //@   ensures unlocked: ef != nil ==> held(ef.l) == 0
 //@   atcall (*trackedMaps).processUnfiltered@2 C09/maps-found-inside-a-struct-value-are-swept-with-the-tracker-that-collected-them: callarg(0) == prevcallarg("(*Filter).filterField", 4)
+//@   atcall (*Filter).filterValue@1 C09/values-of-untagged-maps-are-filtered-under-the-secure-default: callarg(3) == classificationTag && classificationTag != nil && classificationTag.Classification == UnknownClassification && classificationTag.Operation == UnknownOperation
+//@   atcall (*Filter).filterValue@2 C09/values-of-untagged-maps-are-filtered-under-the-secure-default: callarg(3) == classificationTag && classificationTag != nil && classificationTag.Classification == UnknownClassification && classificationTag.Operation == UnknownOperation
+//@   atcall (*Filter).filterValue@3 C09/values-of-untagged-maps-are-filtered-under-the-secure-default: callarg(3) == classificationTag && classificationTag != nil && classificationTag.Classification == UnknownClassification && classificationTag.Operation == UnknownOperation
+//@   atcall (*Filter).filterValue@4 C09/values-of-untagged-maps-are-filtered-under-the-secure-default: callarg(3) == classificationTag && classificationTag != nil && classificationTag.Classification == UnknownClassification && classificationTag.Operation == UnknownOperation
+//@   atcall (*Filter).filterSlice@1 C09/values-of-untagged-maps-are-filtered-under-the-secure-default: callarg(2) == classificationTag && classificationTag != nil && classificationTag.Classification == UnknownClassification && classificationTag.Operation == UnknownOperation
+//@   atcall (reflect.Value).SetMapIndex@1 C09/the-value-written-back-into-the-map-is-the-one-that-was-filtered: callarg(2) == prevcallarg("(*Filter).filterValue", 2) && callarg(0) == v
+//@   atcall (reflect.Value).SetMapIndex@2 C09/the-value-written-back-into-the-map-is-the-one-that-was-filtered: callarg(2) == prevcallarg("(*Filter).filterValue", 2) && callarg(0) == v
 //@   loop 1 modular
 //@   loop 2 modular
 //@   loop 3 modular
 //@   loop 1 invariant ef != nil && maps != nil && held(ef.l) == 0 && oldlocks("held") && events("sys:deepcopy") == old(events("sys:deepcopy")) && failedCalls("(*Filter).filterValue") == 0 && failedCalls("(*Filter).filterSlice") == 0 && failedCalls("(*Filter).filterField") == 0 && failedCalls("(*trackedMaps).processUnfiltered") == 0 && failedCalls("newTrackedMaps") == 0
-//@   loop 2 invariant ef != nil && maps != nil && held(ef.l) == 0 && oldlocks("held") && events("sys:deepcopy") == old(events("sys:deepcopy")) && failedCalls("(*Filter).filterValue") == 0 && failedCalls("(*Filter).filterSlice") == 0 && failedCalls("(*Filter).filterField") == 0 && failedCalls("(*trackedMaps).processUnfiltered") == 0 && failedCalls("newTrackedMaps") == 0
-//@   loop 3 invariant ef != nil && maps != nil && held(ef.l) == 0 && oldlocks("held") && events("sys:deepcopy") == old(events("sys:deepcopy")) && failedCalls("(*Filter).filterValue") == 0 && failedCalls("(*Filter).filterSlice") == 0 && failedCalls("(*Filter).filterField") == 0 && failedCalls("(*trackedMaps).processUnfiltered") == 0 && failedCalls("newTrackedMaps") == 0
+//@   loop 2 invariant ef != nil && maps != nil && held(ef.l) == 0 && oldlocks("held") && classificationTag != nil && classificationTag.Classification == UnknownClassification && classificationTag.Operation == UnknownOperation && events("sys:deepcopy") == old(events("sys:deepcopy")) && failedCalls("(*Filter).filterValue") == 0 && failedCalls("(*Filter).filterSlice") == 0 && failedCalls("(*Filter).filterField") == 0 && failedCalls("(*trackedMaps).processUnfiltered") == 0 && failedCalls("newTrackedMaps") == 0
+//@   loop 3 invariant ef != nil && maps != nil && held(ef.l) == 0 && oldlocks("held") && classificationTag != nil && classificationTag.Classification == UnknownClassification && classificationTag.Operation == UnknownOperation && events("sys:deepcopy") == old(events("sys:deepcopy")) && failedCalls("(*Filter).filterValue") == 0 && failedCalls("(*Filter).filterSlice") == 0 && failedCalls("(*Filter).filterField") == 0 && failedCalls("(*trackedMaps).processUnfiltered") == 0 && failedCalls("newTrackedMaps") == 0
 
 //@ func (*trackedMaps).trackMap(tm) (err)
 //@   requires maps != nil && held(maps.l) == 0
